@@ -1423,6 +1423,19 @@ impl<'input, T: Input> Scanner<'input, T> {
     }
 
     fn fetch_flow_collection_end(&mut self, tok: TokenType<'input>) -> ScanResult {
+        // The closing indicator must match the innermost open flow collection. The parser cannot
+        // always tell: the mapping of an implicit single pair (`[a: b}]`) is closed by a token
+        // we inject ourselves.
+        let closes_mapping = matches!(tok, TokenType::FlowMappingEnd);
+        if let Some(state) = self.implicit_flow_mapping_states.last() {
+            if (*state == ImplicitMappingState::Mapping) != closes_mapping {
+                return Err(ScanError::new_str(
+                    self.mark,
+                    "closing bracket does not match the open flow collection",
+                ));
+            }
+        }
+
         self.remove_simple_key()?;
         self.decrease_flow_level();
 
